@@ -437,9 +437,26 @@ theorem entryRefuses_eq (st : Stored) (mode : Mode) (a : Bool) (keys : List Nat)
     cases a <;> cases (st.frameSrcs.contains uid) <;> cases (keys.any (· == 0)) <;>
       cases (keys.any fun k => decide (k > listMax (st.frames.map (·.key)))) <;> simp
 
+/-- the translated check of indexing by source (T8q) in closed form -/
+theorem sourceIndexingAllowed_eq (ign tf lu ln ss : Bool) :
+    (sourceIndexingAllowed ign tf lu ln ss).isOk = (!tf && (ign || (!lu && !ln)) && ss) := by
+  unfold sourceIndexingAllowed
+  cases ign <;> cases tf <;> cases lu <;> cases ln <;> cases ss <;> rfl
+
+/-- reading by source instance / frame is refused iff the object is TILED_FULL, or does not say for every source that spatial
+locations are preserved and the caller did not opt out, or some frame has several sources -/
+theorem sourceIndexingRefused_eq (st : Stored) (mode : Mode) (ign : Bool) :
+    sourceIndexingRefused st mode ign =
+      (match mode with
+       | .bySource | .frame _ => st.tiledFull || (!ign && st.locPreserved != some true) || !st.singleSource
+       | _ => false) := by
+  unfold sourceIndexingRefused
+  cases mode <;> simp only [sourceIndexingAllowed_eq] <;>
+    cases st.tiledFull <;> cases ign <;> cases st.singleSource <;> rcases st.locPreserved with _ | _ | _ <;> rfl
+
 theorem read_eq_readCore (st : Stored) (mode : Mode) (a : Bool) (rq : Req)
-    (h1 : rq.segs ≠ []) (h2 : rq.keys ≠ [])
-    (h3 : ∀ k ∈ rq.keys, k ≠ 0) (hu : framesUnique st = true)
+    (h0 : sourceIndexingRefused st mode rq.ignoreSpatial = false) (h1 : rq.segs ≠ []) (h2 : rq.keys ≠ [])
+    (h3 : ∀ k ∈ rq.keys, k ≠ 0) (hu : framesUnique st = true) (hsi : st.type = .labelmap ∨ st.segIndexed = true)
     (hm : a = true ∨ missingRefused st mode rq.keys = false) :
     SegRead.read st mode a rq = readCore (effective st mode) rq := by
   unfold SegRead.read
@@ -451,19 +468,27 @@ theorem read_eq_readCore (st : Stored) (mode : Mode) (a : Bool) (rq : Req)
     intro k hk; exact h3 k hk
   have e4 : (!a && missingRefused st mode rq.keys) = false := by
     rcases hm with rfl | h <;> simp_all
-  simp only [e1, e2, hu, entryRefuses_eq, e3, e4, Bool.false_eq_true, ↓reduceIte, Bool.not_true, Bool.or_self]
+  have e5 : (decide (st.type ≠ .labelmap) && !st.segIndexed) = false := by
+    rcases hsi with h | h <;> simp [h]
+  simp only [h0, e1, e2, e5, hu, entryRefuses_eq, e3, e4, Bool.false_eq_true, ↓reduceIte, Bool.not_true, Bool.or_self]
 
 theorem read_missing_refused (st : Stored) (mode : Mode) (rq : Req)
     (hm : missingRefused st mode rq.keys = true) :
     ∃ e, SegRead.read st mode false rq = .error e := by
   unfold SegRead.read
+  by_cases e0 : sourceIndexingRefused st mode rq.ignoreSpatial = true
+  · exact ⟨.runtime, by simp [e0]⟩
+  simp only [e0, Bool.false_eq_true, ↓reduceIte]
   by_cases e1 : rq.segs.isEmpty = true
   · exact ⟨.value, by simp [e1]⟩
   by_cases e2 : rq.keys.isEmpty = true
   · exact ⟨.value, by simp [e1, e2]⟩
+  by_cases e5 : (decide (st.type ≠ .labelmap) && !st.segIndexed) = true
+  · exact ⟨.key, by simp only [e1, e2, e5, Bool.false_eq_true, ↓reduceIte]⟩
+  simp only [e1, e2, e5, Bool.false_eq_true, ↓reduceIte]
   by_cases e4 : framesUnique st = true
-  · exact ⟨.key, by simp [e1, e2, e4, entryRefuses_eq, hm]⟩
-  · exact ⟨.runtime, by simp [e1, e2, e4]⟩
+  · exact ⟨.key, by simp [e4, entryRefuses_eq, hm]⟩
+  · exact ⟨.runtime, by simp [e4]⟩
 
 /-! ### reading the output values -/
 
